@@ -31,9 +31,9 @@
      the restarted state, with no side condition at all;
    * the one-shot clause of I_ctx is FALSE of the restarted state exactly when a
      non-repeated context had its (only) batch in flight when the chain was
-     stopped (`restart_Inv_iff`, `restart_Inv_refuted`): the reset leaves it paused
+     stopped (`restart_Inv_iff`; `restart_Inv_refuted` in Proofs/RestartEx.v): the reset leaves it paused
      with counter 1, and on the new chain its consumer can start it again and it
-     gets a SECOND batch (`restart_oneshot_second_batch`; abci.go
+     gets a SECOND batch (`RestartEx.restart_oneshot_second_batch`; abci.go
      newRequestBatchHandler has no test on the counter of a non-repeated context,
      keeper/invocation.go StartRequestContext no test on Repeated);
    * `restart_Inv`: the full invariant under that single side condition
